@@ -213,3 +213,104 @@ fn generate_full(seed: u64, lite: bool) -> Plan {
     let alloc_seams = n_threads > 1 && r.chance(1, 2);
     Plan { seed, backend: amt::BACKEND.to_string(), threads, sched, alloc_seams }
 }
+
+// ------------------------------------------------------------- systematic plans
+//
+// Besides the seeded search, a bounded space is enumerated completely: for every
+// unit of every type, for each of a few format specifications and every sink
+// write index 0..SYS_K, one plan per event kind placed exactly at that write —
+// sink error, sink panic, hand-over to another caller thread, re-entrant display
+// — each followed by probe displays (same unit, another type, the bare unit, a
+// rate) on the same thread.
+
+pub const SYS_K: usize = 20;
+pub const SYS_VARIANTS: usize = 4;
+/// what the operation that meets the event displays: a value, the bare unit, a rate / a positive value
+pub const SYS_FIRST: usize = 3;
+
+pub fn sys_specs() -> [Spec; 5] {
+    let d = Spec::default();
+    [
+        d,
+        Spec { prec: Some(2), ..d },
+        Spec { align: 3, width: Some(14), prec: Some(1), ..d },
+        Spec { plus: true, zero: true, width: Some(12), prec: Some(3), ..d },
+        Spec { fill: 1, align: 2, width: Some(16), ..d },
+    ]
+}
+
+pub fn sys_total() -> u64 {
+    let units: usize = TABLE.iter().map(|e| (e.n_units)()).sum();
+    (units * sys_specs().len() * SYS_K * SYS_VARIANTS * SYS_FIRST) as u64
+}
+
+pub fn systematic(index: u64) -> Plan {
+    let mut i = index as usize;
+    let variant = i % SYS_VARIANTS;
+    i /= SYS_VARIANTS;
+    let first_kind = i % SYS_FIRST;
+    i /= SYS_FIRST;
+    let k = i % SYS_K;
+    i /= SYS_K;
+    let specs = sys_specs();
+    let spec_idx = i % specs.len();
+    let spec = specs[spec_idx];
+    i /= specs.len();
+    // i is now a flat (type, unit) index
+    let (mut ty, mut unit) = (0, 0);
+    for (t, e) in TABLE.iter().enumerate() {
+        let n = (e.n_units)();
+        if i < n {
+            ty = t;
+            unit = i;
+            break;
+        }
+        i -= n;
+    }
+    let other = (ty + 1) % TABLE.len();
+    let plain = Spec::default();
+    let q = |ty, unit, milli| What::Qty { ty, unit, amount: amt::from_milli(milli) };
+    let op = |what, spec| Op { what, spec, fault: None, nested: None };
+    let probes = vec![
+        op(q(ty, unit, 3250), plain),
+        op(q(other, 0, -7500), Spec { prec: Some(1), ..plain }),
+        op(What::Unit { ty, unit }, plain),
+        op(
+            What::Rate { pair: 0, term_unit: 3, term: amt::from_milli(-2500), per_unit: 1, per: amt::from_milli(4000) },
+            plain,
+        ),
+        op(q(ty, unit, -12500), spec),
+    ];
+    let mut first = match (first_kind, spec_idx) {
+        (0, _) => op(q(ty, unit, -12500), spec),
+        (1, _) => op(What::Unit { ty, unit }, spec),
+        (_, 0) => op(
+            What::Rate { pair: ty % RATES.len(), term_unit: unit, term: amt::from_milli(-12500), per_unit: unit, per: amt::from_milli(4000) },
+            plain,
+        ),
+        _ => op(q(ty, unit, 12500), spec),
+    };
+    let mut threads;
+    let mut sched = vec![0u8; 1];
+    match variant {
+        0 | 1 => {
+            first.fault = Some((k, if variant == 0 { FaultKind::Error } else { FaultKind::Panic }));
+            threads = vec![vec![first]];
+            threads[0].extend(probes);
+        }
+        2 => {
+            // T0 is suspended exactly at its k-th write; T1 runs all its displays; T0 resumes
+            threads = vec![vec![first, op(q(ty, unit, 3250), plain)], probes];
+            sched = vec![1];
+            sched.extend(std::iter::repeat(0).take(1 + k));
+            sched.push(2);
+            sched.extend(std::iter::repeat(0).take(400));
+        }
+        _ => {
+            first.nested = Some((k, q(ty, unit, -3250), plain));
+            threads = vec![vec![first]];
+            threads[0].extend(probes);
+        }
+    }
+    Plan { seed: index, backend: amt::BACKEND.to_string(), threads, sched, alloc_seams: false }
+}
